@@ -18,7 +18,7 @@ inductive Event
   | schedDup (o : Nat)       -- BatchWriteScheduled(o) = true: was scheduled      `sd o`
   | enqRet (p o : Nat)       -- Enqueue(o) of `p` returned                        `er p o`
   | reset (o : Nat)          -- ResetBatchWriteScheduled(o)                       `rs o`
-  | write (o v : Nat)        -- BatchWrite(o) put value v into the current batch  `w o v`
+  | write (o v : Nat)        -- BatchWrite(o) put value v into the current batch  `w o v` (v = 0: it deleted the key)
   | commit                   -- the batched mutations were committed              `cm`
   | done (o : Nat)           -- BatchWriteDone(o)                                 `d o`
   | flush                    -- Flush() called                                    `fl`
@@ -122,7 +122,9 @@ def Mon.step (m : Mon) : Event → Mon
   | .blockedP _ => { m with errs := m.errs ++ [.blockedForever] }
   | .blockedS _ => { m with errs := m.errs ++ [.blockedForever] }
   | .storeHas o v => { m with errs := if m.lastCom o = some v then m.errs else m.errs ++ [.storeMismatch] }
-  | .storeNone o => { m with errs := if m.lastCom o = none then m.errs else m.errs ++ [.storeMismatch] }
+  | .storeNone o =>
+      -- value 0 is the tombstone: a BatchWrite that issued a Delete is recorded as `w o 0`
+      { m with errs := if m.lastCom o = none ∨ m.lastCom o = some 0 then m.errs else m.errs ++ [.storeMismatch] }
   | .panic _ => { m with errs := m.errs ++ [.panicked] }
 
 /-- The monitor after a trace (oldest event first). -/
